@@ -129,6 +129,12 @@ func (u *Unit) checkExit(st *State, fr *Frame) {
 		}
 	}
 	pos := u.body.Rbrace
+	if u.selfInvKey != "" && u.recvObj != nil {
+		if rv, ok := u.entry.env[u.recvObj]; ok && rv.K == vScalar {
+			ti := u.eng.cs.TypeInvs[u.selfInvKey]
+			u.emit(st, "typeinv@exit", u.typeInvTerm(st, ti, u.namedByKey(u.selfInvKey), rv.T), "object invariant of the receiver re-established at exit")
+		}
+	}
 	if st.panicking {
 		u.reached["exit panic"] = true
 		for i, e := range u.c.EnsuresPanic {
@@ -244,7 +250,22 @@ func (u *Unit) frameCheck(st *State, pos token.Pos) {
 					}
 					continue
 				case "calls":
+					f := oev.expr(call.Args[0])
+					t := get("G:calls")
+					t.ghostIdx = append(t.ghostIdx, []Value{f})
 					continue
+				}
+			}
+		}
+		if sel, ok := e.(*ast.SelectorExpr); ok {
+			if s2, ok := sel.X.(*ast.SelectorExpr); ok {
+				if pid, ok := s2.X.(*ast.Ident); ok {
+					if p := oev.lookupPkgIfNotVar(pid.Name); p != nil {
+						if tn, ok := p.Scope().Lookup(s2.Sel.Name).(*types.TypeName); ok {
+							get("H:" + typeKey(tn.Type()) + "." + sel.Sel.Name).wildcard = true
+							continue
+						}
+					}
 				}
 			}
 		}
@@ -331,7 +352,7 @@ func (u *Unit) frameCheck(st *State, pos token.Pos) {
 		if cur == old {
 			continue
 		}
-		if key == "alloc" || strings.HasPrefix(key, "CH:") || key == "G:calls" || key == "G:wg" {
+		if key == "alloc" || strings.HasPrefix(key, "CH:") || key == "G:wg" {
 			continue
 		}
 		// find matching target
